@@ -102,8 +102,9 @@ func c19sm(p *Prog, r *Report) {
 	r.qaCheck(rule, "SM<=n", site, fnName(fn), c, err, 1, "the threshold is attainable", "SuperMajority exceeds n")
 }
 
-func c19trust(p *Prog, r *Report) {
-	const rule = "C19.trust"
+func c19trust(p *Prog, r *Report) { trustRule(p, r, "C19.trust") }
+
+func trustRule(p *Prog, r *Report, rule string) {
 	r.Rule(rule, 5, "TrustCount(): k > T(n) implies k > n/3; T(1)=0; T(n)>=1 for n>=2; T(n) >= f(n); T(n) < n")
 	fn := p.Func(PEER, "PeerSet", "TrustCount")
 	if fn == nil {
